@@ -18,6 +18,8 @@ structure DState where
   tp : RState
   wrapped : Bool := false    -- `tv store wrapped|fmt`: the harness's store reports its errors wrapped
   varKeys : Bool := false    -- `ts keys var`: the TypedStore's key codec is the variable-length `codecVar`
+  tvZero : Bool := false     -- `tv values zempty`: the TypedValue's codec is `codec64z` (0 encodes as the empty byte string)
+  tsZero : Bool := false     -- `ts values zempty`: the same for the TypedStore's values
 
 def dinit : DState := { tv := fresh none, ts := [], tp := rinit }
 
@@ -29,14 +31,14 @@ def parseCsv (s : String) : Option (List Nat) :=
 statement language's semantics (`Hive/Gen/C06_Code.lean`, re-translated from the working tree on every run).  By
 `C06_code_refines_model` the two agree; if a changed source breaks that proof, the disagreement shows up here on
 the concrete inputs of the run (and the real code is then compared with both). -/
-def stepLineBoth (w : Bool) (s : St UInt64) (toks : List String) : St UInt64 × String :=
+def stepLineBoth (w : Bool) (C : Codec UInt64) (s : St UInt64) (toks : List String) : St UInt64 × String :=
   match toks with
   | "init" :: _ => stepLine s toks
   | _ =>
     match parseOp toks with
     | some (op, F) =>
-      let r := step codec64 s op F
-      let g := Code.execOpW w Hive.Gen.C06Code.prog codec64 s op F
+      let r := step C s op F
+      let g := Code.execOpW w Hive.Gen.C06Code.prog C s op F
       -- a panicking compute function (`compute boom`): the same state change as a failing one (none); the caller sees the panic
       let boom := fun (x : String) => if toks.take 2 == ["compute", "boom"] then (x.replace "err:fn" "boom").replace "F!" "F^" else x
       let a := boom (showRes r)
@@ -50,10 +52,14 @@ def dstepLine (s : DState) (toks : List String) : DState × String :=
   | ["tv", "store", fl] => ({ s with wrapped := fl != "plain" }, "ok")
   | [_, "store", _] => (s, "ok")
   | ["ts", "keys", fl] => ({ s with varKeys := fl == "var" }, "ok")
-  | "tv" :: rest => let (tv', o) := stepLineBoth s.wrapped s.tv rest; ({ s with tv := tv' }, o)
+  | ["tv", "values", fl] => ({ s with tvZero := fl == "zempty" }, "ok")
+  | ["ts", "values", fl] => ({ s with tsZero := fl == "zempty" }, "ok")
+  | "tv" :: rest =>
+    let (tv', o) := stepLineBoth s.wrapped (if s.tvZero then codec64z else codec64) s.tv rest
+    ({ s with tv := tv' }, o)
   | "tp" :: rest => let (tp', o) := rstepLine s.tp rest; ({ s with tp := tp' }, o)
   | "ts" :: rest =>
-    let (ts', o) := sstepLineK (if s.varKeys then codecVar else codec16) s.ts rest
+    let (ts', o) := sstepLineK (if s.varKeys then codecVar else codec16) (if s.tsZero then codec64z else codec64) s.ts rest
     ({ s with ts := ts' }, o)
   | ["conc", "counter", final, incs, gets] =>
     match final.toNat?, parseCsv incs, parseCsv gets with
